@@ -56,7 +56,12 @@ func lcpBytes(a, b string) int {
 func c17Check(w *mon.W, keys []string, maxSize int) bool {
 	w.Op, w.A, w.Obj = "ShardByPrefix", int64(maxSize), nil
 	in := append([]string(nil), keys...)
+	keys, guardK := argStrs(w, keys)
 	L, B := sigbits.ShardByPrefix(keys, int32(maxSize))
+	if !guardK() {
+		w.Fail("Shard/wrote-outside-len-of-argument", mon.D{"nkeys": len(in), "maxSize": maxSize})
+		return false
+	}
 	w.Eval(1)
 	d := func(what string, extra mon.D) mon.D {
 		extra["what"] = what
@@ -116,6 +121,8 @@ func c17Check(w *mon.W, keys []string, maxSize int) bool {
 			return false
 		}
 	}
+	scribbleI32(L) // ours now
+	scribbleI32(B)
 	if !retainCheck(w, "Shard", "sigbits.ShardByPrefix", func() uint64 { return gen.Hash64(hashI32(L), hashI32(B)) }) {
 		return false
 	}
